@@ -15,6 +15,7 @@ import MinizProof.Lemmas.Finite
 import MinizProof.Props.C02
 import MinizProof.Props.C03
 import MinizProof.Lemmas.EncDynamic
+import MinizProof.Lemmas.DeflRle
 set_option maxRecDepth 1000000
 open Fin'
 
@@ -262,5 +263,37 @@ example : HasBits #[0x4b, 0x04, 0x01, 0x00] 0 (blocksBits [encStatic true [.lit 
   have : ∀ j, j < 30 → Spec.bitAt #[0x4b, 0x04, 0x01, 0x00] (0 + j) =
       some ((blocksBits [encStatic true [SymTok.lit 97, SymTok.copy 258 0 0 0]]).getD j 0) := by decide +kernel
   exact this i hi
+
+/-! ### The compressor's code-length packing (`start_dynamic_block`), modelled and proved
+
+`Model/DeflRle` is a line-by-line model of the run-length coder `Rle` (`prev_code_size`,
+`zero_code_size`, the loop over the code sizes, the final flush) and of the HCLEN choice. The tie
+(`dynhdr`, op ENC) rebuilds the header of every dynamic block the compressor emitted from the
+block's code lengths with THIS model and compares it bit for bit with what was emitted, from the
+block's first bit to its first token. -/
+open Model.Core Model.Rle in
+/-- THE RUN-LENGTH CODER IS CORRECT FOR EVERY INPUT: whatever the list of code sizes (each at most
+    15), the symbols the packer emits — sizes, "repeat previous 3..6 times", "3..10 zeros",
+    "11..138 zeros" — expand under the reference decoder's reading to exactly that list, and every
+    symbol is well-formed where it stands (extra-bit values in range, a repeat only after a size). -/
+theorem code_length_packing_is_correct (lens : List Nat) (h15 : ∀ l ∈ lens, l ≤ 15) :
+    (applyAll #[] (rlePack lens)).toList = lens ∧ SOk #[] (rlePack lens) := rlePack_spec lens h15
+
+open Model.Core Model.Rle in
+/-- … AND THE REFERENCE DECODER READS IT BACK: with any usable code-length code that has a code for
+    every symbol the packer used, `readLens` on the emitted bits returns exactly the code sizes and
+    stops exactly after them. -/
+theorem packed_code_lengths_are_read_back (lens : List Nat) (h15 : ∀ l ∈ lens, l ≤ 15) (clens : Array Nat) (hc : CodeOk clens)
+    (hcodes : ∀ c ∈ rlePack lens, c.sym < clens.size ∧ 1 ≤ clens.getD c.sym 0)
+    (data : Array UInt8) (fuel pos : Nat) (hf : (rlePack lens).length < fuel)
+    (h : HasBits data pos (encCSyms clens (rlePack lens))) :
+    Spec.readLens (Spec.mkCode clens) data lens.length fuel pos #[] =
+      .accept (pos + (encCSyms clens (rlePack lens)).length, lens.toArray) :=
+  packed_lens_round_trip lens h15 clens hc hcodes data fuel pos hf h
+
+-- the packer on a list with a long zero run, a run of equal sizes and a short tail
+open Model.Core Model.Rle in
+example : (applyAll #[] (rlePack ([8] ++ List.replicate 140 0 ++ List.replicate 7 5 ++ [0, 0, 3]))).toList =
+    [8] ++ List.replicate 140 0 ++ List.replicate 7 5 ++ [0, 0, 3] := by decide +kernel
 
 end C10
